@@ -475,6 +475,8 @@ def _worker(job):
                 res_cases.append((s.name, enc))
             out["resolve_unmodelled"] = unmod[0]
             out["resolve"] = res_cases
+        import time as _time
+        t_c = _time.time()
         try:
             if route > 0 and parsers[0][2] == "Timeout":
                 raise impl.Timeout()
@@ -488,6 +490,8 @@ def _worker(job):
             outcome = "ok"
         except BaseException as e:  # noqa
             outcome = impl.exc_kind(e)
+            if _time.time() - t_c > 4.5:
+                outcome = "Timeout"     # the alarm may surface as another exception type
             p = None
         envs.append(env)
         parsers.append((g, p, outcome))
